@@ -33,6 +33,7 @@ def snapshot(root):
     for d in ("contracts", "tools"):
         shutil.copytree(os.path.join(V, d), os.path.join(snap, d), ignore=shutil.ignore_patterns("__pycache__"))
     shutil.copytree(os.path.join(V, "replay"), os.path.join(snap, "replay"), ignore=shutil.ignore_patterns("target"))
+    shutil.copytree(os.path.join(V, "kani"), os.path.join(snap, "kani"), ignore=shutil.ignore_patterns("target"))
     for f in ("check", "known_findings.jsonl", "MANIFEST.json"):
         shutil.copy(os.path.join(V, f), os.path.join(snap, f))
     SNAP[0] = snap
